@@ -356,3 +356,39 @@ def may_be_callers_array(fn, v, depth=0):
         if isinstance(v.func, ast.Attribute) and last == 'astype' and isinstance(kw.get('copy'), ast.Constant) and kw['copy'].value is False:
             return may_be_callers_array(fn, v.func.value, depth)
     return None
+
+
+def stale_loop_variable(fn):
+    """[(node, variable, list name)]: a loop fills a list with its loop variable (L.append(v)), a later loop iterates over that list with its
+    own variable w, and its body still reads v -- which is the *last* element the first loop saw, the same for every iteration."""
+    out = []
+
+    def blocks(node):
+        for f in ('body', 'orelse', 'finalbody'):
+            b = getattr(node, f, None)
+            if isinstance(b, list) and b and isinstance(b[0], ast.stmt):
+                yield b
+        if isinstance(node, ast.Try):
+            for h in node.handlers:
+                yield h.body
+    for node in ast.walk(fn):
+        for body in blocks(node):
+            for k, a in enumerate(body):
+                if not (isinstance(a, ast.For) and isinstance(a.target, ast.Name)):
+                    continue
+                v = a.target.id
+                filled = {c.func.value.id for c in ast.walk(a) if isinstance(c, ast.Call) and isinstance(c.func, ast.Attribute)
+                          and c.func.attr == 'append' and isinstance(c.func.value, ast.Name) and len(c.args) == 1
+                          and any(isinstance(x, ast.Name) and x.id == v for x in ast.walk(c.args[0]))}
+                if not filled:
+                    continue
+                for b in body[k + 1:]:
+                    if any(isinstance(t, ast.Name) and t.id == v and isinstance(t.ctx, ast.Store) for t in ast.walk(b)):
+                        break                                  # rebound: no longer the first loop's variable
+                    if isinstance(b, ast.For) and isinstance(b.iter, ast.Name) and b.iter.id in filled and isinstance(b.target, ast.Name) \
+                            and b.target.id != v:
+                        for r in ast.walk(b):
+                            if isinstance(r, ast.Name) and r.id == v and isinstance(r.ctx, ast.Load):
+                                out.append((r, v, b.iter.id, b.target.id))
+                                break
+    return out
